@@ -119,7 +119,7 @@ func runFuzz(prop string, plan Plan, st Step, si int, tier, runDir, partDir, rep
 	ctx, cancel := context.WithTimeout(context.Background(), ft+5*time.Minute)
 	defer cancel()
 	cmd := exec.CommandContext(ctx, "go", "test", "-tags", "verif", "-vet=off", "-run", "^$", "-fuzz", "^"+st.Run+"$",
-		"-fuzztime", ft.String(), "-test.fuzzcachedir", filepath.Join(root, "run", "fuzzcache", prop, st.Run), plan.Pkg)
+		"-fuzztime", ft.String(), plan.Pkg)
 	cmd.Dir = root
 	cmd.SysProcAttr = &syscall.SysProcAttr{Setpgid: true}
 	cmd.Cancel = func() error { return syscall.Kill(-cmd.Process.Pid, syscall.SIGKILL) }
